@@ -76,6 +76,9 @@ pub enum TK {
     TimerStop { obj: u64, lo: u64, hi: u64, returned: u64, rate: u64 },
     TimerClose { obj: u64, lo: u64, hi: u64, reported: u64, rate: u64 },
     Stamp { kind: String, unit: String, wall_ns: i64, text: String },
+    /// objects built on an explicit `TimeSource::System` while injected sources are ambient: did they read the real
+    /// clocks? (Only these two truth values are recorded, never a reading of a real clock.)
+    SystemObjects { stamp_real: bool, timer_real: bool, stopwatch_real: bool },
     PhaseBegin,
     PhaseEnd,
     DoubleInstall { panicked: bool },
@@ -389,6 +392,25 @@ impl Ctx {
                     log.log(TK::TimerClose { obj, lo, hi: detsim::run_clock_ns(), reported: r.as_nanos() as u64, rate });
                 }
             }
+            "system_objects" => {
+                // Explicitly provided sources come first in the resolution order, `TimeSource::System` included.
+                // The real wall clock lies between mid 2025 and 2096 (no injected wall clock of this scenario does);
+                // a real timer sees (much) less than ten minutes go by while the injected clocks advance by hours.
+                let stamp = Timestamp::new_from_time_source(TimeSource::System);
+                let mut timer = Timer::start_now_with_timesource(TimeSource::System);
+                let mut sw = Stopwatch::new_from_timesource(TimeSource::System);
+                let g = sw.start();
+                detsim::advance_clock(ju(op, "ns", 7_200_000_000_000).max(3_600_000_000_000));
+                drop(g);
+                let elapsed = timer.stop();
+                let sw_total = sw.close().unwrap_or_default();
+                let at = stamp.close().duration_since_epoch().as_nanos();
+                log.log(TK::SystemObjects {
+                    stamp_real: (1_750_000_000_000_000_000..4_000_000_000_000_000_000).contains(&at),
+                    timer_real: elapsed < Duration::from_secs(600),
+                    stopwatch_real: sw_total < Duration::from_secs(600),
+                });
+            }
             "wall" => self.wall.store(ji(op, "ns", 0), Ordering::SeqCst),
             "stamp" => {
                 let on_close = jb(op, "on_close", false);
@@ -564,6 +586,14 @@ pub fn check_c18(h: &[TEv]) -> Option<Violation> {
                     }
                 }
             }
+            TK::SystemObjects { stamp_real, timer_real, stopwatch_real } => {
+                if !(*stamp_real && *timer_real && *stopwatch_real) {
+                    return Some(Violation::new(
+                        "explicit_system_source_ignored",
+                        format!("objects built on an explicit TimeSource::System while injected sources were ambient did not use the system clocks (timestamp real: {stamp_real}, timer real: {timer_real}, stopwatch real: {stopwatch_real})"),
+                    ));
+                }
+            }
             TK::Stamp { kind, unit, wall_ns, text } => {
                 let w = (*wall_ns).max(0) as u128;
                 let ok = match unit.as_str() {
@@ -680,6 +710,9 @@ impl Gen18 {
                 }
             }
             _ => {
+                if rng.chance(0.15) {
+                    ops.push(json!({"op":"system_objects","ns": 3_600_000_000_000u64 * (1 + rng.below(5))}));
+                }
                 ops.push(json!({"op":"wall","ns":wall18(rng)}));
                 let on_close = rng.chance(0.5);
                 let mut o = json!({"op":"stamp","on_close":on_close,"unit": *rng.pick(&["s", "ms", "us", "default"]),"then_wall_ns":wall18(rng),"between":self.between(rng)});
@@ -814,6 +847,9 @@ impl Scenario for Timers {
     fn property(&self) -> &'static str {
         "C18"
     }
+    fn weight(&self, _tier: Tier) -> u32 {
+        3
+    }
     fn generate(&self, rng: &mut Rng, tier: Tier) -> Value {
         gen_c18(rng, tier)
     }
@@ -844,6 +880,7 @@ impl Scenario for Timers {
             match &e.k {
                 TK::GuardEnd { how, .. } => r.probe(&format!("guard_{how}"), 1),
                 TK::PhaseBegin => r.probe("concurrent_owned_phase", 1),
+                TK::SystemObjects { .. } => r.probe("explicit_system_source_under_override", 1),
                 TK::Stamp { wall_ns, .. } => {
                     r.probe("timestamps", 1);
                     if *wall_ns < 0 {
@@ -894,12 +931,234 @@ impl Scenario for Timers {
         r
     }
     fn probes(&self) -> Vec<&'static str> {
-        vec!["guard_stop", "guard_drop", "guard_discard", "guard_overwrite", "guard_unwind", "ticking_clock", "runtime_double_install", "concurrent_owned_phase", "timestamps", "wall_clock_before_epoch", "nested_thread_local_source_ended", "runtime_level_source_in_effect", "scoped_source"]
+        vec!["guard_stop", "guard_drop", "guard_discard", "guard_overwrite", "guard_unwind", "ticking_clock", "runtime_double_install", "concurrent_owned_phase", "timestamps", "wall_clock_before_epoch", "nested_thread_local_source_ended", "runtime_level_source_in_effect", "scoped_source", "explicit_system_source_under_override"]
     }
     fn components(&self) -> Value {
         json!({"real": ["Stopwatch / TimerGuard / OwnedTimerGuard / MaybeGuardedDuration / SharedDuration", "Timer", "Timestamp / TimestampOnClose / TimestampValue / EpochSeconds / EpochMillis / EpochMicros", "metrique_timesource::{TimeSource::custom, set_time_source, time_source}"], "simulated_seams": ["Time (monotonic = simulator clock, wall = harness-controlled, steps backwards allowed)", "Arc/Mutex of the shared duration"], "harness": ["operation histories, 1-3 threads finishing owned guards"], "stub": []})
     }
     fn rule(&self) -> &'static str {
         "each run: a history of 1-40 operations on one stopwatch (borrowed guards: stop/drop/discard/overwrite; owned guards, several live at once, finished on the owner thread or concurrently on 1-3 other threads; clear; close after most prefixes), timers (stop, stop again, close by value / by reference) and timestamps (at creation / on close, seconds / millis / micros / default formatter, wall clock stepped incl. before the epoch) over clock advances of 0, 1 ns, random and hours. non-trivial = >= 2 operations; distinct = distinct (op list, context-switch signature)"
+    }
+}
+
+// ------------------------------------------------------------------------------------------
+// C18 on the library's own fake clock (metrique_timesource::fakes::ManuallyAdvancedTimeSource)
+// ------------------------------------------------------------------------------------------
+
+/// The "manually advanced time source" the property names is part of the library (fakes.rs). Here it is the ambient
+/// source; the plan advances its monotonic clock and steps its wall clock (both ways, in any order) between the
+/// operations on a stopwatch, timers and timestamps, on 1-2 simulated threads sharing the one fake. Exact model.
+pub struct FakeClock;
+
+fn fake_main(plan: &Value, out: Arc<Mutex<Vec<String>>>) {
+    use metrique_timesource::fakes::ManuallyAdvancedTimeSource;
+    let wall0: u64 = 1_700_000_000_000_000_000;
+    let fake = ManuallyAdvancedTimeSource::at_time(SystemTime::UNIX_EPOCH + Duration::from_nanos(wall0));
+    // model
+    let mono = Arc::new(std::sync::atomic::AtomicU64::new(0));
+    let wall = Arc::new(std::sync::atomic::AtomicU64::new(wall0));
+    let run_thread = |ops: Vec<Value>, fake: ManuallyAdvancedTimeSource, mono: Arc<std::sync::atomic::AtomicU64>, wall: Arc<std::sync::atomic::AtomicU64>, out: Arc<Mutex<Vec<String>>>, sole: bool| {
+        let _g = set_time_source(TimeSource::custom(fake.clone()));
+        let mut sw = Stopwatch::new();
+        let mut sw_total: Option<u64> = None;
+        let mut timers: BTreeMap<u64, (Timer, u64, Option<u64>)> = BTreeMap::new();
+        let bad = |msg: String| out.lock().unwrap().push(msg);
+        for op in &ops {
+            detsim::yield_point();
+            match js(op, "op", "") {
+                "adv" => {
+                    let ns = ju(op, "ns", 0);
+                    fake.update_instant(Duration::from_nanos(ns));
+                    mono.fetch_add(ns, Ordering::SeqCst);
+                }
+                "wall" => {
+                    let ns = ju(op, "ns", 0);
+                    fake.update_time(SystemTime::UNIX_EPOCH + Duration::from_nanos(ns));
+                    wall.store(ns, Ordering::SeqCst);
+                }
+                "span" if sole => {
+                    // a borrowed guard around an advance (and perhaps a wall-clock step)
+                    let g = sw.start();
+                    let ns = ju(op, "ns", 0);
+                    fake.update_instant(Duration::from_nanos(ns));
+                    mono.fetch_add(ns, Ordering::SeqCst);
+                    if let Some(w) = op.get("wall").and_then(|x| x.as_u64()) {
+                        fake.update_time(SystemTime::UNIX_EPOCH + Duration::from_nanos(w));
+                        wall.store(w, Ordering::SeqCst);
+                    }
+                    let ns2 = ju(op, "ns2", 0);
+                    fake.update_instant(Duration::from_nanos(ns2));
+                    mono.fetch_add(ns2, Ordering::SeqCst);
+                    drop(g);
+                    sw_total = Some(sw_total.unwrap_or(0) + ns + ns2);
+                }
+                "timer_new" if sole => {
+                    timers.insert(ju(op, "obj", 0), (Timer::start_now(), mono.load(Ordering::SeqCst), None));
+                }
+                "timer_stop" if sole => {
+                    if let Some((t, start, stopped)) = timers.get_mut(&ju(op, "obj", 0)) {
+                        let r = t.stop().as_nanos() as u64;
+                        let want = *stopped.get_or_insert(mono.load(Ordering::SeqCst) - *start);
+                        if r != want {
+                            bad(format!("timer_stop_wrong: stop() returned {r} ns, the manually advanced clock moved {want} ns between creation and the first stop"));
+                        }
+                    }
+                }
+                "timer_close" if sole => {
+                    if let Some((t, start, stopped)) = timers.remove(&ju(op, "obj", 0)) {
+                        let r = t.close().as_nanos() as u64;
+                        let want = stopped.unwrap_or(mono.load(Ordering::SeqCst) - start);
+                        if r != want {
+                            bad(format!("timer_close_wrong: the timer closed with {r} ns, the manually advanced clock moved {want} ns between its creation and its first stop / close"));
+                        }
+                    }
+                }
+                "stamp" if sole => {
+                    let on_close = jb(op, "on_close", false);
+                    let (v, want) = if on_close {
+                        let t = TimestampOnClose::default();
+                        if let Some(w) = op.get("wall").and_then(|x| x.as_u64()) {
+                            fake.update_time(SystemTime::UNIX_EPOCH + Duration::from_nanos(w));
+                            wall.store(w, Ordering::SeqCst);
+                        }
+                        (t.close(), wall.load(Ordering::SeqCst))
+                    } else {
+                        let want = wall.load(Ordering::SeqCst);
+                        let t = Timestamp::now();
+                        if let Some(w) = op.get("wall").and_then(|x| x.as_u64()) {
+                            fake.update_time(SystemTime::UNIX_EPOCH + Duration::from_nanos(w));
+                            wall.store(w, Ordering::SeqCst);
+                        }
+                        (t.close(), want)
+                    };
+                    let got = v.duration_since_epoch().as_nanos() as u64;
+                    if got != want {
+                        bad(format!("timestamp_wrong: a timestamp (on_close: {on_close}) reports {got} ns since the epoch, the fake's wall clock said {want} ns"));
+                    }
+                }
+                _ => {}
+            }
+        }
+        if sole {
+            let rep = sw.close().map(|d| d.as_nanos() as u64);
+            if rep != sw_total {
+                bad(format!("stopwatch_total_wrong: the stopwatch reports {rep:?} ns, its completed spans total {sw_total:?} ns on the manually advanced clock"));
+            }
+        }
+    };
+    // a second thread only moves the shared fake's clocks (the measuring thread's spans are then sums of both)
+    let second: Vec<Value> = ja(plan, "second").to_vec();
+    if second.is_empty() {
+        run_thread(ja(plan, "ops").to_vec(), fake, mono, wall, out, true);
+    } else {
+        // with a concurrent mover the exact model needs the moves to be ordered with the measurements: the mover
+        // runs to completion first (its moves still go through the same shared fake and its lock)
+        let (f2, m2, w2, o2) = (fake.clone(), mono.clone(), wall.clone(), out.clone());
+        let h = detsim::thread::spawn_named("mover", move || run_thread(second, f2, m2, w2, o2, false));
+        let _ = h.join();
+        run_thread(ja(plan, "ops").to_vec(), fake, mono, wall, out, true);
+    }
+}
+
+impl Scenario for FakeClock {
+    fn name(&self) -> &'static str {
+        "timers_fake_clock"
+    }
+    fn property(&self) -> &'static str {
+        "C18"
+    }
+    fn weight(&self, _tier: Tier) -> u32 {
+        1
+    }
+    fn generate(&self, rng: &mut Rng, _tier: Tier) -> Value {
+        let mut ops = vec![];
+        let mut live: Vec<u64> = vec![];
+        let mut next = 1u64;
+        let w = |rng: &mut Rng| 1_600_000_000_000_000_000u64 + rng.below(400_000_000_000_000_000);
+        for _ in 0..(3 + rng.below(20)) {
+            match rng.below(9) {
+                0 | 1 => ops.push(json!({"op":"adv","ns":adv18(rng)})),
+                2 => ops.push(json!({"op":"wall","ns":w(rng)})),
+                3 | 4 => {
+                    let mut o = json!({"op":"span","ns":adv18(rng),"ns2":adv18(rng)});
+                    if rng.chance(0.5) {
+                        o["wall"] = json!(w(rng));
+                    }
+                    ops.push(o);
+                }
+                5 => {
+                    ops.push(json!({"op":"timer_new","obj":next}));
+                    live.push(next);
+                    next += 1;
+                }
+                6 if !live.is_empty() => ops.push(json!({"op":"timer_stop","obj": *rng.pick(&live)})),
+                7 if !live.is_empty() => {
+                    let i = rng.usize_below(live.len());
+                    ops.push(json!({"op":"timer_close","obj": live.remove(i)}));
+                }
+                _ => {
+                    let mut o = json!({"op":"stamp","on_close":rng.chance(0.5)});
+                    if rng.chance(0.6) {
+                        o["wall"] = json!(w(rng));
+                    }
+                    ops.push(o);
+                }
+            }
+        }
+        for obj in live {
+            ops.push(json!({"op":"timer_close","obj":obj}));
+        }
+        let second: Vec<Value> = if rng.chance(0.2) { (0..1 + rng.below(4)).map(|_| if rng.chance(0.5) { json!({"op":"adv","ns":adv18(rng)}) } else { json!({"op":"wall","ns":w(rng)}) }).collect() } else { vec![] };
+        let sched = gen_sched(rng, &SchedOpts { est_choices: 60, threads: 2, jump_max_ns: 0, stall_clock_max_ns: 0, max_steps: 20_000 });
+        json!({"sched": sched, "ops": ops, "second": second})
+    }
+    fn run(&self, plan: &Value) -> Report {
+        let sched = sched_from_plan(plan);
+        let bad: Arc<Mutex<Vec<String>>> = Arc::new(Mutex::new(vec![]));
+        let (b2, p2) = (bad.clone(), plan.clone());
+        let (out, _) = detsim::run(sched, move || fake_main(&p2, b2));
+        let mut r = Report::default();
+        r.nontrivial = ja(plan, "ops").len() >= 2;
+        r.case_sig = mix(out.sig, hash_value(&json!([plan.get("ops"), plan.get("second")])));
+        let failure = out.failure.clone();
+        let mp = out.main_panic.clone();
+        absorb_outcome(&mut r, out);
+        let ops = ja(plan, "ops");
+        r.probe("wall_step_inside_a_running_span", ops.iter().filter(|o| js(o, "op", "") == "span" && o.get("wall").is_some()).count() as u64);
+        r.fault("wall_step", ops.iter().filter(|o| js(o, "op", "") == "wall" || o.get("wall").is_some()).count() as u64);
+        r.states = vec![mix(ops.len() as u64, ja(plan, "second").len() as u64)];
+        if let Some(msg) = bad.lock().unwrap().first() {
+            let (class, text) = msg.split_once(": ").unwrap_or(("timer_wrong", msg));
+            r.violation = Some(Violation::new(class, text.to_string()));
+        }
+        r.sample = Some(json!({"ops": ops.iter().take(12).collect::<Vec<_>>()}));
+        if r.violation.is_none() {
+            match failure {
+                None => {}
+                Some(detsim::Failure::StepLimit { .. }) => r.inconclusive = true,
+                Some(f) => r.harness_error = Some(format!("simulation failed: {f:?}")),
+            }
+            if let Some(p) = mp {
+                match crate::driver::classify_uncaught_panic(&p) {
+                    Ok(v) => r.violation = Some(v),
+                    Err(e) => r.harness_error = Some(e),
+                }
+            }
+        }
+        r
+    }
+    fn probes(&self) -> Vec<&'static str> {
+        vec!["wall_step_inside_a_running_span"]
+    }
+    fn components(&self) -> Value {
+        json!({
+            "real": ["metrique_timesource::fakes::ManuallyAdvancedTimeSource (the library's manually advanced clock)", "Stopwatch / TimerGuard", "Timer", "Timestamp / TimestampOnClose / TimestampValue", "thread-local time source override"],
+            "simulated_seams": ["thread spawn/join"],
+            "harness": ["exact model of the manual advances and wall-clock steps"],
+            "stub": []
+        })
+    }
+    fn rule(&self) -> &'static str {
+        "each run: the library's ManuallyAdvancedTimeSource is ambient; 3-22 operations (advance, wall-clock step, borrowed span around advances with a wall step in the middle, timers created / stopped repeatedly / closed, timestamps at creation and at close), a fifth of the runs with a second thread moving the shared fake first; exact model. non-trivial = >= 2 operations; distinct = distinct plans"
     }
 }
